@@ -460,6 +460,9 @@ def _enum_shard(shard: T.Tuple[T.List[str], int, int, int, int], ev: Evidence, f
                 excl[EXCL_BAILOUT] += 1
             if len(R.classes) == 1 and tag.startswith('err:'):
                 hist['single-class:' + tag[4:]] += 1
+            if tag.startswith('err:'):
+                for c in R.classes:
+                    hist['has:' + c] += 1
             if R.nontrivial() and not R.unspecified:
                 nt += 1
             if samples[tag] < 2 and len(lines) == maxlen and (n % 97 == 0):
@@ -633,6 +636,9 @@ def _tally(ev: Evidence, case: T.Any, tag: str, R: T.Optional[reftap.Interp], pr
         ev.exclude(EXCL_BAILOUT)
     if len(R.classes) == 1 and tag.startswith('err:'):
         ev.event('single-class:' + tag[4:])
+    if tag.startswith('err:'):
+        for c in R.classes:
+            ev.event('has:' + c)
     ev.case(case, nontrivial=R.nontrivial() and not R.unspecified, cls=f'{prefix}/{tag}')
 
 
@@ -871,10 +877,10 @@ def run(ctx: Ctx) -> None:
                                         + ('' if ctx.quick else f' and of length 5 over a {len(ALPHABET5)}-form sub-alphabet')
                                         + ' are enumerated completely (parser + verdict); longer streams and arbitrary text are sampled')
     # (b)
-    pmap(ctx, _bulk_shard, [(s + 100, ctx.n(10000, 150000)) for s in shard_seeds(ctx, 16)])
-    pmap(ctx, _stream_shard, [(s, ctx.n(500, 8000)) for s in shard_seeds(ctx, 16)])
+    pmap(ctx, _bulk_shard, [(s + 100, ctx.n(10000, 60000)) for s in shard_seeds(ctx, 16)])
+    pmap(ctx, _stream_shard, [(s, ctx.n(500, 4000)) for s in shard_seeds(ctx, 16)])
     # (c)
-    pmap(ctx, _text_shard, [(s + 500, ctx.n(600, 8000)) for s in shard_seeds(ctx, 16)])
+    pmap(ctx, _text_shard, [(s + 500, ctx.n(600, 4000)) for s in shard_seeds(ctx, 16)])
     # (e)
     nb, per = (1, 64) if ctx.quick else (4, 250)
     for b in range(nb):
